@@ -424,7 +424,7 @@ func init() {
 			r.Assume("PLUS variants run over a fabricated TLS 1.2 connection state (tls-unique); the real handshake is covered by C14", "password/user are ASCII")
 			maxLen := 5
 			if r.Thorough {
-				maxLen = 6
+				maxLen = 7
 			}
 			r.Extra("max_sequence_length", maxLen)
 			for vv := 0; vv < 8; vv++ {
@@ -466,7 +466,7 @@ func init() {
 				r.HarnessError("bad case: %v", err)
 				return
 			}
-			keys, whats, desc := c15ExecR(r, k.Variant, 6, k.Reuse, vf.NewChooser(k.Prefix))
+			keys, whats, desc := c15ExecR(r, k.Variant, 7, k.Reuse, vf.NewChooser(k.Prefix))
 			r.Eval(1, true)
 			fmt.Printf("  %s server messages: %s\n", c15Variants[k.Variant], desc)
 			for i, key := range keys {
